@@ -6,11 +6,11 @@ From Verif Require Import PyRes Str Marker MarkerBase.
 Import ListNotations.
 
 Definition str_var (n : str) : bool := negb (version_like n) && negb (str_eqb n (of_string "extra")).
-(* well-defined atoms: string variables, not a literal-on-the-left `in`; `extra` only with == / != *)
+(* well-defined atoms: `extra` only with == / != ; everything else, including literal-on-the-left `in` atoms *)
 Definition ok_atom (a : atom) : bool :=
   if version_like (a_name a) then true
   else if str_eqb (a_name a) (of_string "extra") then mop_eqb (a_op a) MEq || mop_eqb (a_op a) MNe
-  else negb (a_rev a && (mop_eqb (a_op a) MIn || mop_eqb (a_op a) MNotIn)).
+  else true.
 Fixpoint wf (m : marker) : bool :=
   match m with
   | MAtom a => ok_atom a
@@ -112,12 +112,12 @@ Section Single.
   Hypothesis vmerge_sound : forall k a b r, vmerge k a b = Some r ->
     wf r = true /\ forall e, good e -> meval e r = bop k (atom_eval e a) (atom_eval e b).
 
-  Lemma atom_eval_str e a : str_var (a_name a) = true -> ok_atom a = true ->
+  Lemma atom_eval_str e a : str_var (a_name a) = true -> rev_in a = false ->
     atom_eval e a = gen_contains (a_op a) (a_value a) (sv e (a_name a)).
   Proof.
-    unfold str_var, ok_atom, atom_eval. intros H. apply andb_prop in H as [H1 H2].
+    unfold str_var, rev_in, atom_eval. intros H. apply andb_prop in H as [H1 H2].
     apply negb_true_iff in H1, H2. rewrite H1, H2.
-    destruct (a_rev a); [|reflexivity]. cbn. intros H. apply negb_true_iff in H.
+    destruct (a_rev a); [|reflexivity]. cbn. intros H.
     destruct (a_op a); cbn in H; try discriminate; reflexivity.
   Qed.
 
@@ -153,6 +153,7 @@ Section Single.
     wf r = true /\ forall e, good e -> meval e r = bop k (atom_eval e a) (atom_eval e b).
   Proof.
     unfold merge_single. intros H Oa Ob.
+    destruct (rev_in a || rev_in b) eqn:Rab; [discriminate H|]. apply orb_false_elim in Rab as [Ra Rb].
     destruct (pyver_pair (a_name a) (a_name b)); [eapply vmerge_sound; eauto|].
     destruct (str_eqb_spec (a_name a) (a_name b)) as [En|]; [|discriminate]. cbn [negb] in H.
     destruct (version_like (a_name a)) eqn:VL; [eapply vmerge_sound; eauto|].
@@ -231,7 +232,7 @@ Section SingleOps.
   Qed.
 
   (* a single marker on the same string variable n *)
-  Lemma same_name_atom e n a : str_var n = true -> a_name a = n -> ok_atom a = true ->
+  Lemma same_name_atom e n a : str_var n = true -> a_name a = n -> rev_in a = false ->
     atom_eval e a = gen_contains (a_op a) (a_value a) (sv e n) /\ (forall v, atom_contains vcontains a v = gen_contains (a_op a) (a_value a) v).
   Proof.
     intros Hn <- Oa. split; [apply atom_eval_str; assumption|].
@@ -253,12 +254,15 @@ Section SingleOps.
     wf r = true /\ forall e, meval e r = mem_str (sv e n) vs && meval e other.
   Proof.
     unfold equ_and. intros H Hn Wo. destruct (is_single other) eqn:IS; [|discriminate]. cbn [negb] in H.
-    destruct (str_eqb_spec n (single_name other)) as [Hname|Hname]; cbn [negb] in H.
-    - destruct other as [| |a|n' vs'|n' vs'|l|l]; try discriminate; cbn [single_name] in Hname.
-      + injection H as <-. destruct (same_name_atom (mkMEnv (fun _ => []) [] (fun _ => false)) n a Hn (eq_sym Hname) Wo) as [_ HC].
+    destruct (str_eqb_spec n (single_name other)) as [Hname|Hname]; cbn [negb orb] in H.
+    - destruct (rev_in_m other) eqn:Rv.
+      { injection H as <-. split; [apply wf_mk_multi; cbn; rewrite Hn, Wo; reflexivity|].
+        intros e. rewrite mk_multi_meval. cbn. rewrite andb_true_r. reflexivity. }
+      destruct other as [| |a|n' vs'|n' vs'|l|l]; try discriminate; cbn [single_name] in Hname.
+      + injection H as <-. destruct (same_name_atom (mkMEnv (fun _ => []) [] (fun _ => false)) n a Hn (eq_sym Hname) Rv) as [_ HC].
         split; [apply (equ_replace_ok (mkMEnv (fun _ => []) [] (fun _ => false))), Hn|].
         intros e. destruct (equ_replace_ok e n (oset (filter (atom_contains vcontains a) vs)) Hn) as [_ ->].
-        destruct (same_name_atom e n a Hn (eq_sym Hname) Wo) as [HE _]. cbn [meval]. rewrite HE, mem_oset, mem_filter, HC. reflexivity.
+        destruct (same_name_atom e n a Hn (eq_sym Hname) Rv) as [HE _]. cbn [meval]. rewrite HE, mem_oset, mem_filter, HC. reflexivity.
       + injection H as <-. subst n'. split; [apply (equ_replace_ok (mkMEnv (fun _ => []) [] (fun _ => false))), Hn|].
         intros e. destruct (equ_replace_ok e n (oset_and vs vs') Hn) as [_ ->]. rewrite mem_oset_and. reflexivity.
     - injection H as <-. split; [apply wf_mk_multi; cbn; rewrite Hn, Wo; reflexivity|].
@@ -269,11 +273,14 @@ Section SingleOps.
     wf r = true /\ forall e, meval e r = mem_str (sv e n) vs || meval e other.
   Proof.
     unfold equ_or. intros H Hn Wo. destruct (is_single other) eqn:IS; [|discriminate]. cbn [negb] in H.
-    destruct (str_eqb_spec n (single_name other)) as [Hname|Hname]; cbn [negb] in H.
-    - destruct other as [| |a|n' vs'|n' vs'|l|l]; try discriminate; cbn [single_name] in Hname.
-      + assert (HA : forall e, atom_eval e a = gen_contains (a_op a) (a_value a) (sv e n)) by (intros e; apply (same_name_atom e n a Hn (eq_sym Hname) Wo)).
+    destruct (str_eqb_spec n (single_name other)) as [Hname|Hname]; cbn [negb orb] in H.
+    - destruct (rev_in_m other) eqn:Rv.
+      { injection H as <-. split; [apply wf_mk_union; cbn; rewrite Hn, Wo; reflexivity|].
+        intros e. rewrite mk_union_meval. cbn. rewrite orb_false_r. reflexivity. }
+      destruct other as [| |a|n' vs'|n' vs'|l|l]; try discriminate; cbn [single_name] in Hname.
+      + assert (HA : forall e, atom_eval e a = gen_contains (a_op a) (a_value a) (sv e n)) by (intros e; apply (same_name_atom e n a Hn (eq_sym Hname) Rv)).
         assert (HC : forall v, atom_contains vcontains a v = gen_contains (a_op a) (a_value a) v)
-          by (apply (same_name_atom (mkMEnv (fun _ => []) [] (fun _ => false)) n a Hn (eq_sym Hname) Wo)).
+          by (apply (same_name_atom (mkMEnv (fun _ => []) [] (fun _ => false)) n a Hn (eq_sym Hname) Rv)).
         destruct (a_op a) eqn:Eop.
         3-10: (destruct (forallb (atom_contains vcontains a) vs) eqn:F; injection H as <-;
                   [ split; [exact Wo|]; intros e; cbn [meval]; rewrite HA, <- HC;
@@ -299,11 +306,14 @@ Section SingleOps.
     wf r = true /\ forall e, meval e r = negb (mem_str (sv e n) vs) && meval e other.
   Proof.
     unfold nem_and. intros H Hn Wo. destruct (is_single other) eqn:IS; [|discriminate]. cbn [negb] in H.
-    destruct (str_eqb_spec n (single_name other)) as [Hname|Hname]; cbn [negb] in H.
-    - destruct other as [| |a|n' vs'|n' vs'|l|l]; try discriminate; cbn [single_name] in Hname.
-      + assert (HA : forall e, atom_eval e a = gen_contains (a_op a) (a_value a) (sv e n)) by (intros e; apply (same_name_atom e n a Hn (eq_sym Hname) Wo)).
+    destruct (str_eqb_spec n (single_name other)) as [Hname|Hname]; cbn [negb orb] in H.
+    - destruct (rev_in_m other) eqn:Rv.
+      { injection H as <-. split; [apply wf_mk_multi; cbn; rewrite Hn, Wo; reflexivity|].
+        intros e. rewrite mk_multi_meval. cbn. rewrite andb_true_r. reflexivity. }
+      destruct other as [| |a|n' vs'|n' vs'|l|l]; try discriminate; cbn [single_name] in Hname.
+      + assert (HA : forall e, atom_eval e a = gen_contains (a_op a) (a_value a) (sv e n)) by (intros e; apply (same_name_atom e n a Hn (eq_sym Hname) Rv)).
         assert (HC : forall v, atom_contains vcontains a v = gen_contains (a_op a) (a_value a) v)
-          by (apply (same_name_atom (mkMEnv (fun _ => []) [] (fun _ => false)) n a Hn (eq_sym Hname) Wo)).
+          by (apply (same_name_atom (mkMEnv (fun _ => []) [] (fun _ => false)) n a Hn (eq_sym Hname) Rv)).
         destruct (a_op a) eqn:Eop.
         3-10: (destruct (existsb (atom_contains vcontains a) vs) eqn:F; cbn [negb] in H; injection H as <-;
                   [ split; [apply wf_mk_multi; cbn [forallb]; rewrite Wo; cbn [wf]; rewrite Hn; reflexivity|];
@@ -329,11 +339,14 @@ Section SingleOps.
     wf r = true /\ forall e, meval e r = negb (mem_str (sv e n) vs) || meval e other.
   Proof.
     unfold nem_or. intros H Hn Wo. destruct (is_single other) eqn:IS; [|discriminate]. cbn [negb] in H.
-    destruct (str_eqb_spec n (single_name other)) as [Hname|Hname]; cbn [negb] in H.
-    - destruct other as [| |a|n' vs'|n' vs'|l|l]; try discriminate; cbn [single_name] in Hname; injection H as <-.
-      + assert (HA : forall e, atom_eval e a = gen_contains (a_op a) (a_value a) (sv e n)) by (intros e; apply (same_name_atom e n a Hn (eq_sym Hname) Wo)).
+    destruct (str_eqb_spec n (single_name other)) as [Hname|Hname]; cbn [negb orb] in H.
+    - destruct (rev_in_m other) eqn:Rv.
+      { injection H as <-. split; [apply wf_mk_union; cbn; rewrite Hn, Wo; reflexivity|].
+        intros e. rewrite mk_union_meval. cbn. rewrite orb_false_r. reflexivity. }
+      destruct other as [| |a|n' vs'|n' vs'|l|l]; try discriminate; cbn [single_name] in Hname; injection H as <-.
+      + assert (HA : forall e, atom_eval e a = gen_contains (a_op a) (a_value a) (sv e n)) by (intros e; apply (same_name_atom e n a Hn (eq_sym Hname) Rv)).
         assert (HC : forall v, atom_contains vcontains a v = gen_contains (a_op a) (a_value a) v)
-          by (apply (same_name_atom (mkMEnv (fun _ => []) [] (fun _ => false)) n a Hn (eq_sym Hname) Wo)).
+          by (apply (same_name_atom (mkMEnv (fun _ => []) [] (fun _ => false)) n a Hn (eq_sym Hname) Rv)).
         split; [apply (nem_replace_ok (mkMEnv (fun _ => []) [] (fun _ => false))), Hn|].
         intros e. destruct (nem_replace_ok e n (oset (filter (fun v => negb (atom_contains vcontains a v)) vs)) Hn) as [_ ->].
         cbn [meval]. rewrite mem_oset, mem_filter, HA, HC.
